@@ -287,7 +287,8 @@ pub fn case_text(c: &Case) -> String {
     let ms = if c.msgs.is_empty() { "-".to_string() } else if c.msgs.iter().any(|m| m.phase == 1) { format!("{}|{}", mt(0), mt(1)) } else { mt(0) };
     let ep = |e: &EpCfg| format!("{}:{}:{}:{}:{}:{}:{}", e.rwnd, e.rto_initial_ms, e.max_burst, e.max_cwnd,
         e.seed_tsn.map(|v| v.to_string()).unwrap_or("-".into()), e.seed_tag.map(|v| v.to_string()).unwrap_or("-".into()), e.max_buffered);
-    format!("link epA={} epB={} chA={} chB={} msgs={} faults={}", ep(&c.cfg[0]), ep(&c.cfg[1]), ch(&c.chans[0]), ch(&c.chans[1]), ms, faults_text(&c.faults))
+    let cl = if c.closes.is_empty() { "-".to_string() } else { c.closes.iter().map(|(s, id)| format!("{}{id}", ["A", "B"][*s])).collect::<Vec<_>>().join(";") };
+    format!("link epA={} epB={} chA={} chB={} msgs={} faults={} closes={cl} end={}", ep(&c.cfg[0]), ep(&c.cfg[1]), ch(&c.chans[0]), ch(&c.chans[1]), ms, faults_text(&c.faults), c.end.text())
 }
 
 /// payload of message `idx` on a channel: deterministic, distinct per (side, chan, idx), any size
@@ -328,7 +329,9 @@ pub fn parse_case(s: &str) -> Option<Case> {
         }
     }
     Some(Case { cfg: [ep(kv.get("epA")?)?, ep(kv.get("epB")?)?], chans: [ch(kv.get("chA")?), ch(kv.get("chB")?)], msgs,
-        faults: faults_parse(kv.get("faults")?), deadline: Duration::from_secs(12), settle: Duration::from_millis(60), closes: vec![] })
+        faults: faults_parse(kv.get("faults")?), deadline: Duration::from_secs(12), settle: Duration::from_millis(60),
+        closes: match kv.get("closes") { Some(t) if t != "-" => t.split(';').filter_map(|x| Some((if x.starts_with('A') { 0 } else { 1 }, x[1..].parse().ok()?))).collect(), _ => vec![] },
+        end: kv.get("end").map(|t| End::parse(t)).unwrap_or(End::None) })
 }
 
 fn mk_case(sizes: &[usize], faults: Vec<Fault>, tsn: Option<u32>) -> Case {
@@ -340,7 +343,7 @@ fn mk_case(sizes: &[usize], faults: Vec<Fault>, tsn: Option<u32>) -> Case {
     let msgs = sizes.iter().enumerate().map(|(i, l)| Msg { side: 0, chan: 1, data: payload(0, 1, i, *l),
         phase: if n > 1 && i == n - 1 { 1 } else { 0 }, task: 0 }).collect();
     Case { cfg, chans: [vec![ChanSpec::reliable(1)], vec![ChanSpec::reliable(1)]], msgs, faults,
-        deadline: Duration::from_secs(12), settle: Duration::from_millis(60), closes: vec![] }
+        deadline: Duration::from_secs(12), settle: Duration::from_millis(60), closes: vec![], end: End::None }
 }
 
 fn ev_text(e: &DataChannelEvent) -> String {
@@ -387,7 +390,13 @@ pub fn replay_lines(side: usize, c: &Case, o: &Outcome) -> (String, String, usiz
     }
     let s = &o.snaps[side];
     let st = match s.state { SctpState::New => "new", SctpState::Connecting => "connecting", SctpState::Connected => "connected", SctpState::Closed => "closed" };
+    // application calls made on a quiet link: their effect on the channel table does not depend on their
+    // position among the trace events of the closing phase, so they are replayed first; then the teardown
+    let quiet_at = toks.len();
+    let _ = quiet_at;
     for (s2, id) in &c.closes { if *s2 == side { toks.push(format!("X,{id}")); } }
+    if o.ended { if let End::LocalClose(s2) = c.end { if s2 == side { toks.push("Z".into()); } } }
+    toks.push("F".into());
     let chans = if o.chans_final[side].is_empty() { "-".to_string() } else { o.chans_final[side].iter().map(|cf| {
         let evs: Vec<String> = o.events[side].iter().filter(|(c, _)| *c == cf.id).map(|(_, e)| ev_text(e)).collect();
         let tail = if cf.negotiated { String::new() } else { format!(":o{}:r{}:t{}:{}:{}", cf.ordered as u8, ou(cf.max_retransmits), ou(cf.max_lifetime),
@@ -423,13 +432,20 @@ pub fn oracle(c: &Case, o: &Outcome) -> Vec<(String, String)> {
             if let Some((k, d)) = kind {
                 fails.push((format!("prefix:{k}"), format!("{}→{} ch{}: {d}", ["A", "B"][side], ["A", "B"][peer], ch.id)));
             } else if delivered.len() < submitted.len() {
-                let closed = o.snaps.iter().any(|s| s.state == SctpState::Closed || s.close_reason.is_some())
-                    || o.events[peer].iter().any(|(id, e)| *id == ch.id && matches!(e, DataChannelEvent::Close));
-                if !closed && o.send_errors.is_empty() {
+                // excused only by a close the case itself asked for (teardown / close_data_channel of this channel)
+                let excused = (0..2).any(|s| c.end.closes_side(s)) || c.closes.iter().any(|(_, id)| *id == ch.id);
+                if !excused {
                     fails.push(("stall".into(), format!("{}→{} ch{}: {} of {} delivered after {} ms (script exhausted: {})",
                         ["A", "B"][side], ["A", "B"][peer], ch.id, delivered.len(), submitted.len(), o.elapsed_ms, o.faults_used.iter().all(|u| *u))));
                 }
             }
+        }
+    }
+    // nothing in these runs asks an association to close: a Closed side is a failure of its own
+    for side in 0..2 {
+        let s = &o.snaps[side];
+        if (s.state == SctpState::Closed || s.close_reason.is_some()) && !c.end.closes_side(side) && !(0..2).any(|x| c.end.closes_side(x)) {
+            fails.push(("close:association-closed-without-cause".into(), format!("{} is {:?} (reason {:?}) after {} ms", ["A", "B"][side], s.state, s.close_reason, o.elapsed_ms)));
         }
     }
     fails
@@ -454,7 +470,7 @@ fn minimise(c: &Case, kind: &str, port: u16) -> Vec<Fault> {
     let mut i = 0;
     while i < cur.len() && cur.len() > 1 {
         let mut t = cur.clone(); t.remove(i);
-        let cc = Case { cfg: c.cfg.clone(), chans: c.chans.clone(), msgs: c.msgs.clone(), faults: t.clone(), deadline: c.deadline, settle: c.settle, closes: c.closes.clone() };
+        let cc = Case { cfg: c.cfg.clone(), chans: c.chans.clone(), msgs: c.msgs.clone(), faults: t.clone(), deadline: c.deadline, settle: c.settle, closes: c.closes.clone(), end: c.end };
         let o = run_one(&cc, port);
         if oracle(&cc, &o).iter().any(|(k, _)| k == kind) { cur = t; } else { i += 1; }
     }
@@ -614,7 +630,7 @@ pub fn run(args: &Args) {
         for (kind, detail) in oracle(c, &o) {
             let min = minimise(c, &kind, 2000);
             let sig = format!("hist:{}:{kind}", script_class(&min));
-            let mc = Case { cfg: c.cfg.clone(), chans: c.chans.clone(), msgs: c.msgs.clone(), faults: min, deadline: c.deadline, settle: c.settle, closes: c.closes.clone() };
+            let mc = Case { cfg: c.cfg.clone(), chans: c.chans.clone(), msgs: c.msgs.clone(), faults: min, deadline: c.deadline, settle: c.settle, closes: c.closes.clone(), end: c.end };
             run.fail(&sig, &case_text(&mc), &format!("{detail} [{}; from {text}]", lc.name));
         }
     }
